@@ -554,7 +554,7 @@ def check_score(ctx, S, wrong, lp, text=None):
     # positions, follow those; whatever the load-side comparison of such a score finds is filed under that finding
     fine_ = any((Fraction(x["dur_q"]) / 4).denominator > 1024 or (Fraction(x["dur_q"]) / 4).numerator > 1024 for x in A["notes"].values())
 
-    def V(key, what, witness=None, _V=V):           # noqa
+    def V(key, what, witness=None, _V=globals()["V"]):           # noqa
         if fine_ and key != "score-duration-approximated:fraction-beyond-1024":
             ctx.extra["consequences_of_approximated_durations:" + key.split(":")[0]] += 1
             _V("score-duration-approximated:fraction-beyond-1024", f"(in a score with durations finer than 1/1024) {key}: {what}", witness)
